@@ -16,6 +16,7 @@ SPEC = {
         "next stage. Atomicity of creation w.r.t. forks on other threads (pipe2(O_CLOEXEC)) is checked too."
         " Thorough tier, windows: set_inheritable(f, b) sets HANDLE_FLAG_INHERIT to exactly b."
         " R08.5: after each dup2 in the child the source descriptor is marked close-on-exec (0..2 excepted), so a shared file is not inherited twice (reported D14)."
+        " R08.2 accepts pipe2(O_CLOEXEC) (the D7 repair): pipes are born close-on-exec where the system can."
     ),
     "not_decided": "the contents of real descriptor tables; EOF timing; descriptors the *caller* leaves inheritable.",
     "trusted_base": ["rustc MIR", "POSIX: FD_CLOEXEC descriptors are closed by exec; pipe() returns inheritable descriptors",
